@@ -29,7 +29,7 @@ REGIONXS_POWER_CONVERT_DIRECTIONAL_DIFF = [
     "powerConvMult",
     "d1Multiplier",
     "d1Additive",
-    "d1Multiplier",
+    "d2Multiplier",
     "d2Additive",
     "d3Multiplier",
     "d3Additive",
